@@ -170,7 +170,9 @@ RULE = ('every descriptor the real loader exports (ESTA + manufacturer, GET/SET 
         'filled with 0xff by another message (key shared), both must equal the model; likewise every case is decoded by a fresh MessageDeserializer and by ONE '
         'long-lived deserializer (key ldes), and `reload k` operations delete the RootPidStore, disturb the heap, '
         'load data/rdm again and sweep all descriptors x lengths 0-47 with the long-lived deserializer against '
-        'a fresh one (key sweep) - detection of pointer-keyed caches depends on heap address reuse and is '
+        'a fresh one (key sweep); `look` cases are histories of RootPidStore::ManufacturerStore / GetDescriptor '
+        '(by value, by name, with known / unknown / repeated manufacturer ids) on the one long-lived store with '
+        'the identity of every result compared (key h) - detection of pointer-keyed caches depends on heap address reuse and is '
         'therefore probabilistic; non-trivial = payload accepted and '
         're-encoded to a non-empty byte string; distinct = distinct model output line')
 ASSUMPTIONS = ['operator new does not fail',
@@ -194,7 +196,7 @@ TRUSTED = ['modelled rather than verified: Descriptor.h/.cpp size functions, Des
            'GroupSizeCalculator is modelled (gcalc) and compared on every case with the payload length as token '
            'count (key gs, internal); PidStoreHelper, StringMessageBuilder and the message printers are outside '
            'the decode/re-encode path and not covered']
-SPEC_KEYS = ['r', 'ser', 'same', 'again', 'shared', 'ldes', 'sweep', 'n', 'cc', 'specfail', 'ndesc', 'npids', 'load']
+SPEC_KEYS = ['h', 'r', 'ser', 'same', 'again', 'shared', 'ldes', 'sweep', 'n', 'cc', 'specfail', 'ndesc', 'npids', 'load']
 # not property-determined (internal): d (descriptor text), cs (calculator state), gs (GroupSizeCalculator state),
 # m (message text), cap (m_buffer_size)
 INTERNAL_KEYS = []
@@ -365,7 +367,7 @@ def _load_tsv():
     for line in open(path):
         f = line.rstrip('\n').split('\t')
         if f[0] == 'D':
-            ents.append((int(f[1]), int(f[2]), int(f[3]), f[4]))
+            ents.append((int(f[1]), int(f[2]), int(f[3]), f[4], f[5] if len(f) > 5 else ''))
     return ents
 
 
@@ -385,10 +387,63 @@ def gen_cases(rng, tier):
         yield c
 
 
+def _gen_lookups(rng, ents, n):
+    """histories of RootPidStore lookups: known / unknown manufacturer ids, ESTA id 0, repeats,
+    alternations known-unknown-unknown, PIDs and names of the same / another manufacturer / nobody"""
+    by_man = {}
+    for m, pid, kind, d, name in ents:
+        by_man.setdefault(m, {})[pid] = name
+    known = sorted(k for k in by_man if k != 0)
+    allpids = [(m, p, nm) for m in by_man for p, nm in by_man[m].items()]
+
+    def unknown():
+        return rng.choice([1, 2, 0x7fff, 0xffff, rng.choice(known) + 1, rng.choice(known) - 1, rng.randrange(1, 65536)])
+
+    def man_id(prev):
+        r = rng.random()
+        if prev and r < 0.35: return rng.choice(prev)          # repeat an id used earlier in this history
+        if r < 0.6: return rng.choice(known)
+        if r < 0.9:
+            u = unknown()
+            return u if u not in by_man else 0
+        return 0
+
+    def hexname(nm):
+        nm = rng.choice([nm, nm.lower(), nm.title(), nm + 'X', nm[:-1]]) if rng.random() < 0.5 else nm
+        return ''.join('%02x' % ord(c) for c in nm) or '-'
+
+    for _ in range(n):
+        used = []
+        ops = []
+        for _ in range(rng.choice([3, 4, 6, 8, 12])):
+            m = man_id(used)
+            used.append(m)
+            k = rng.random()
+            src = rng.choice([m, m, rng.choice(known), 0])       # whose PID / name is asked for
+            pid, nm = rng.choice(list(by_man[src].items())) if src in by_man and by_man[src] else (0x8000, 'NOPE')
+            if rng.random() < 0.15:
+                pid, nm = rng.choice([0x8000, 0xffdf, 0, 0x7fe0, rng.randrange(65536)]), 'NO_SUCH_PID'
+            if k < 0.3: ops.append('M%d' % m)
+            elif k < 0.6: ops.append('V%d:%d' % (pid, m))
+            elif k < 0.8: ops.append('N%s:%d' % (hexname(nm), m))
+            elif k < 0.87: ops.append('v%d' % pid)
+            elif k < 0.94: ops.append('n%s' % hexname(nm))
+            else: ops.append('E')
+        yield 'look ' + ','.join(ops)
+    # the shortest alternations, for every known manufacturer: known, unknown, unknown again
+    for m in known:
+        u = unknown()
+        if u in by_man: u = 1
+        pid, nm = sorted(by_man[m].items())[0]
+        yield 'look M%d,M%d,M%d,V%d:%d,V%d:%d,N%s:%d' % (m, u, u, pid, u, pid, m, hexname(nm), u)
+
+
 def _gen_cases(rng, tier):
     quick = tier == 'quick'
     ents = _load_tsv()
     yield 'store'
+    for c in _gen_lookups(rng, ents, 600 if quick else 6000):
+        yield c
     shapes = {}
     for e in ents:
         shapes.setdefault(e[3], []).append(e)
